@@ -32,15 +32,17 @@ ASSUMPTIONS = ["a producer that abandons a blocked send after more than 2.5 s (q
                "a consumer is determined by the channels it is blocked on as a function of what it has received (no select-default/timeouts)"]
 PARTIAL = ["'unchanged by gzip compression': no theorem; compress/gzip is a trusted component and the clause rests on the runs "
            "through Go's own gzip writer (one and two members) and reader",
-           "'the streaming parser delivers the identical records': the producer of the model is DEFINED as 'send the records of "
-           "parse, in order, then close' (Model/Fasta.producer); that the goroutine, which interleaves scanning and sending, performs "
-           "exactly these sends rests on the stream correspondence cases; stream_* are theorems about every schedule of that producer",
+           "streaming: the goroutine's loop is modelled statement by statement as the channel operations it performs "
+           "(Model/Fasta.loopOps) and PROVED to send exactly the records of parse, in order, then close once (producer_refines); what "
+           "remains informal is that scanning between two sends has no effect on the channel (reading the io.Reader is not a channel "
+           "operation)",
            "non-ASCII names: theorems are over code points (see ASSUMPTIONS)",
            "data races are outside the model: -race runs only"]
 TECHNIQUE = ("Lean 4 proof over an executable model of the scanner, the parser loop, Build and the producer goroutine on a "
              "small-step channel semantics; independent layout writer as spec; differential correspondence incl. schedules")
 LEVEL_TEXT = ("Kernel-checked for all record lists, sequence lengths, layouts, capacities and schedules: parse_build, parse_layout "
-              "(+ invariance corollary), stream_prefix (safety for every consumer), stream_terminates, stream_complete, stream_fifo, "
+              "(+ invariance corollary), producer_refines (the goroutine's loop, as written, performs exactly one send per parsed record in "
+              "order and one close), stream_prefix (safety for every consumer), stream_terminates, stream_complete, stream_fifo, "
               "parseCollect_eq (fasta.Parse = the records sent). The model is tied to the code by correspondence on Parse/Read/ReadGz/"
               "Build/Write and on channel traces for capacities 0..1000 with stalled consumers (thorough: under the race detector, "
               "GOMAXPROCS 1/2/16).")
